@@ -303,9 +303,17 @@ func proveLTLen(v, y ssa.Value, fs []fact, depth int) bool {
 }
 
 // proveGE0: v >= 0.
+// ge0Assumed: loop-carried values currently assumed non-negative while their own incoming edges are being proven
+// (induction over the rounds of the loop: the first value does not depend on the phi, every later one is computed
+// from a value of an earlier round).
+var ge0Assumed = map[ssa.Value]bool{}
+
 func proveGE0(v ssa.Value, fs []fact, depth int) bool {
 	if depth > 6 {
 		return false
+	}
+	if ge0Assumed[v] {
+		return true
 	}
 	if k, ok := constIntOf(v); ok {
 		return k >= 0
@@ -359,6 +367,8 @@ func proveGE0(v ssa.Value, fs []fact, depth int) bool {
 		}
 	}
 	if ph, ok := v.(*ssa.Phi); ok {
+		ge0Assumed[v] = true
+		defer delete(ge0Assumed, v)
 		for i, e := range ph.Edges {
 			pred := ph.Block().Preds[i]
 			if e == v {
